@@ -533,6 +533,14 @@ func checkInterest(val *Interest, context *InterestParsingContext) error {
 	if val.SignatureValue != nil && val.ApplicationParameters == nil {
 		return enc.ErrIncorrectDigest
 	}
+	if val.ApplicationParameters == nil {
+		// A parameters digest without parameters is not a valid Interest
+		for _, c := range val.NameV {
+			if c.Typ == enc.TypeParametersSha256DigestComponent {
+				return enc.ErrIncorrectDigest
+			}
+		}
+	}
 	if val.ApplicationParameters != nil {
 		// Check digest
 		name := val.NameV
